@@ -32,8 +32,8 @@ func universe() []tup {
 	}
 	for f := 0; f < 5; f++ {
 		for us := 0; us < 16; us++ {
-			u = append(u, tup{fmt.Sprintf("folder:%d", f), "viewer", fmt.Sprintf("user:%d", us)})
-			u = append(u, tup{fmt.Sprintf("folder:%d", f), "owner", fmt.Sprintf("user:%d", us)})
+			u = append(u, tup{fmt.Sprintf("documents:%d", f), "viewer", fmt.Sprintf("user:%d", us)})
+			u = append(u, tup{fmt.Sprintf("documents:%d", f), "owner", fmt.Sprintf("user:%d", us)})
 		}
 	}
 	for g := 0; g < 5; g++ {
@@ -212,7 +212,7 @@ func tupleCase(c *vk.Ctx, cfg srvkit.Config, n int) {
 	}
 	// a second store on the same server with other content must never leak into the walks
 	if other := e.mustStore("other"); other != "" && e.mustModel(other, modelDSL) != "" {
-		_ = e.write(other, request{writes: []tup{{"document:77", "viewer", "user:77"}, {"folder:77", "owner", "user:77"}}})
+		_ = e.write(other, request{writes: []tup{{"document:77", "viewer", "user:77"}, {"documents:77", "owner", "user:77"}}})
 	}
 	c.Count("tuples_written", n)
 	c.Count("write_requests", len(d.requests))
@@ -235,7 +235,7 @@ func tupleCase(c *vk.Ctx, cfg srvkit.Config, n int) {
 	}
 
 	// ---- ReadChanges
-	types := []string{"", "document", "folder", "group", "nosuchtype"}
+	types := []string{"", "document", "documents", "group", "nosuchtype"}
 	resume := map[string]string{} // type filter -> token of the terminal page of one complete walk
 	groupsFor := func(reqs []request, typ string) ([][]string, []string) {
 		var groups [][]string
@@ -280,7 +280,7 @@ func tupleCase(c *vk.Ctx, cfg srvkit.Config, n int) {
 	before := len(d.requests)
 	extra := []request{
 		{writes: []tup{{"document:90", "viewer", "user:90"}}},
-		{writes: []tup{{"folder:90", "owner", "user:90"}, {"group:4", "member", "user:90"}}},
+		{writes: []tup{{"documents:90", "owner", "user:90"}, {"group:4", "member", "user:90"}}},
 		{deletes: []tup{{"document:90", "viewer", "user:90"}}},
 	}
 	for _, rq := range extra {
